@@ -1,5 +1,5 @@
 import SuxModel.Base.Proto
-import SuxModel.BitFieldVec.Model
+import SuxModel.BitFieldVec.Spec
 /-!
 # Protocol runner `bfv` (C05, C10, C14): registers `a` (current) and `b` (saved), word size `W`
 Reply format: `<result>;<bit width of a>;<len of a>;<words of a>`.
@@ -114,6 +114,12 @@ def rstep (r : RSt) (toks : List String) : RSt × String :=
   | ["conv", _] => reply r "ok"
   | ["copy", f, t, n] => match nat2 f t, parseNat n with
     | some (f, t), some n => mutate r (copy W r.b f r.a t n) | _, _ => bad
+  | ["wcopy", f, t, n] => match nat2 f t, parseNat n with
+    | some (f, t), some n =>
+      (match sliceCopy (r.b.vals W) (r.a.vals W) f t n with
+       | .ok l => reply r s!"ok {fmtNatList l}"
+       | .panic => reply r "panic" | .oob => reply r "oob")
+    | _, _ => bad
   | ["apply", a, c] => match nat2 a c with
     | some (a, c) =>
       match applyInPlace W r.a (applyF W r.a.bw a c) (0, []) with
